@@ -35,10 +35,47 @@ def small_doc(rng, version, nlines):
     return lines[:nlines]
 
 
+def multiline_doc(rng):
+    """a GFA2 document with one set defined on several U lines (gfapy: the items of the lines are
+    put together, the tags of all lines belong to the group) and possibly a path defined on two O
+    lines (whose relative order is part of the document and is kept in every order tried).  The
+    tags of the group lines have distinct names and every datatype."""
+    from ..gen import values as V
+    n = rng.randint(2, 4)
+    segs = ["s%d" % i for i in range(n)]
+    lines = ["S\t%s\t10\t*" % x for x in segs]
+    edges = []
+    for i in range(n - 1):
+        edges.append("e%d" % i)
+        lines.append("E\te%d\t%s+\t%s+\t5\t10$\t0\t5\t*" % (i, segs[i], segs[i + 1]))
+    pool = segs + edges
+    k = rng.randint(2, 3)
+    used = set()
+    ulines = []
+    for i in range(k):
+        items = rng.sample(pool, rng.randint(1, min(3, len(pool))))
+        tags = V.random_tags(rng, n=rng.choice([0, 1, 1, 2]), canonical=True, used=used)
+        used |= set(t[0] for t in tags)
+        ulines.append("\t".join(["U", "u1", " ".join(items)] + ["%s:%s:%s" % t for t in tags]))
+    olines = []
+    if rng.random() < 0.4 and n >= 3:
+        t1 = V.random_tags(rng, n=rng.choice([0, 1]), canonical=True, used=used)
+        used |= set(t[0] for t in t1)
+        t2 = V.random_tags(rng, n=rng.choice([0, 1]), canonical=True, used=used)
+        olines = ["\t".join(["O", "o1", "%s+ %s+" % (segs[0], segs[1])] + ["%s:%s:%s" % t for t in t1]),
+                  "\t".join(["O", "o1", "%s+" % segs[2]] + ["%s:%s:%s" % t for t in t2])]
+    return lines, ulines, olines
+
+
 def cases(rng, tier, shard, nshards):
     nmax = NMAX_ALL[tier]
     while True:
         version = rng.choice(["gfa1", "gfa2"])
+        if rng.random() < 0.2:
+            lines, ulines, olines = multiline_doc(rng)
+            yield {"k": "multiline", "version": "gfa2", "lines": lines, "ulines": ulines, "olines": olines,
+                   "seed": rng.getrandbits(32), "n": 12 if tier == "quick" else 40}
+            continue
         if rng.random() < 0.7:
             twin = rng.random() < 0.25
             lines = small_doc(rng, version, nmax - 1 if twin else nmax)
@@ -97,7 +134,80 @@ def gfapy_neighbourhoods(g, version):
     return out
 
 
+def _group_view(text):
+    """(record type, name, items, tags as a sorted tuple) of a written group line."""
+    r = S.parse_line(text, "gfa2")
+    items = r.pos[1].split(" ")
+    return (r.rt, r.pos[0], tuple(sorted(items)) if r.rt == "U" else tuple(items), tuple(sorted(r.tags)))
+
+
+def run_multiline(case, ctx):
+    import random
+    rng = random.Random(case["seed"])
+    base, ulines, olines = case["lines"], case["ulines"], case["olines"]
+    want = {}
+    uitems, utags = [], []
+    for l in ulines:
+        v = _group_view(l)
+        uitems += list(v[2])
+        utags += list(v[3])
+    want["u1"] = ("U", "u1", tuple(sorted(uitems)), tuple(sorted(utags)))
+    if olines:
+        oi, ot = [], []
+        for l in olines:
+            v = _group_view(l)
+            oi += list(v[2])
+            ot += list(v[3])
+        want["o1"] = ("O", "o1", tuple(oi), tuple(sorted(ot)))
+    others = sorted(base)
+    ctx.count("multiline_group_documents")
+    for _ in range(case["n"]):
+        movable = base + ulines + ([olines[0]] if olines else [])
+        rng.shuffle(movable)
+        if olines:
+            # the second O line anywhere after the first
+            i = movable.index(olines[0])
+            movable.insert(rng.randint(i + 1, len(movable)), olines[1])
+        order = movable
+        r = call(ctx, "Gfa(list)", gfapy.Gfa, order)
+        ctx.count("permutations")
+        ctx.count("multiline_group_orders")
+        if not r.ok:
+            ctx.violation("order-raises/%s/multi-line-group" % r.cls(),
+                          "order %r raised %s: %s" % (order, r.cls(), str(r.exc)[:300]))
+            return
+        g = r.value
+        written = O.safe_str(g).split("\n")
+        got = {}
+        rest = []
+        for w in written:
+            if w[:1] in ("U", "O"):
+                v = _group_view(w)
+                if v[1] in got:
+                    ctx.violation("order-dependent/%s/written-twice/multi-line-group" % v[0],
+                                  "order %r: group %s written on several lines: %r" % (order, v[1], written))
+                    return
+                got[v[1]] = v
+            else:
+                rest.append(w)
+        if sorted(rest) != others:
+            ctx.violation("order-dependent/other-records/multi-line-group",
+                          "order %r: records other than the groups are written as %r" % (order, sorted(rest)))
+            return
+        for n in want:
+            if got.get(n) != want[n]:
+                a, b = want[n], got.get(n)
+                what = "missing" if b is None else ("items" if a[2] != b[2] else "tags")
+                ctx.violation("order-dependent/%s/%s/multi-line-group" % (a[0], what),
+                              "order %r: group %s is %r, the lines define %r" % (order, n, b, a))
+                return
+    ctx.nontriv([base, ulines, olines])
+    ctx.sample({"version": "gfa2", "lines": base + ulines + olines, "orders_executed": case["n"]})
+
+
 def run(case, ctx):
+    if case.get("k") == "multiline":
+        return run_multiline(case, ctx)
     lines, version = case["lines"], case["version"]
     kw = {"version": version} if case["explicit"] else {}
     ref = None
